@@ -3,7 +3,7 @@
     nibabel's DicomWrapper and the default extractor) + voxel-order string + what
     [DicomStack.to_nifti(order, embed_meta=False)] produced. *)
 From Coq Require Import List Bool Arith ZArith NArith QArith Qcanon Qabs.
-From DV Require Import Common.Res Common.Str Stack.Model Orient.Model Conv.Geom Conv.Header.
+From DV Require Import Common.Res Common.Str Generated.T_conv Stack.Model Orient.Model Conv.Geom Conv.Header.
 Import ListNotations.
 Local Open Scope nat_scope.
 
@@ -25,7 +25,7 @@ Record case := mkcase {
   c_time : bool;
   c_vec : bool;
   c_files : list gfile;            (* in add order *)
-  c_code : str;
+  c_code : option str;             (* None = the default argument of to_nifti *)
   c_exact : bool;                  (* every float operation of the implementation is exact on this input *)
   c_faffs : list mat;              (* observed single-file NIfTI affines (from_dicom_wrapper), parallel to c_files *)
   c_obs : obs
@@ -81,7 +81,7 @@ Fixpoint contracts_ok (exact : bool) (gs : list gfile) (As : list mat) : bool :=
 Definition model (c : case) : res state * (state * res (geom_out * hdr_out)) :=
   match add_all (init (c_time c) (c_vec c)) (map g_file (c_files c)) with
   | Err e => (Err e, (init (c_time c) (c_vec c), Err e))
-  | Ok st => (Ok st, conv (c_files c) st (c_code c) false)
+  | Ok st => (Ok st, conv (c_files c) st (match c_code c with Some s => s | None => default_voxel_order end) false)
   end.
 
 Definition check_state (c : case) (st' : state) : bool :=
